@@ -29,6 +29,7 @@ type Program struct {
 	OpenFindings     map[string]bool
 	initOrder        []*ssa.Package
 	PureTypes        func(types.Type) bool
+	BrokenHarness    []string // harness packages dropped because they no longer compile
 	Params           map[string]int
 	AssertPrefix     string
 }
@@ -59,47 +60,70 @@ func Load(repo, harness string, want ...string) (*Program, error) {
 	if err != nil {
 		return nil, err
 	}
-	overlay := map[string][]byte{}
-	for v, r := range ov {
-		if strings.HasSuffix(r, "_test.go") {
-			continue
-		}
-		b, err := os.ReadFile(r)
-		if err != nil {
-			return nil, err
-		}
-		overlay[v] = b
-	}
-	cfg := &packages.Config{
-		Mode:    packages.LoadAllSyntax,
-		Dir:     repo,
-		Overlay: overlay,
-		Env:     append(os.Environ(), "GOFLAGS=-mod=mod", "GOPROXY=off", "GOSUMDB=off", "GOTOOLCHAIN=local"),
-	}
 	if len(want) == 0 {
 		want = []string{"grits/types", "grits/process", "grits/parser"}
 	}
-	pats := append([]string{}, want...)
-	pats = append(pats, "grits/zzvn")
-	if _, err := os.Stat(filepath.Join(harness, "zzpub")); err == nil {
-		pats = append(pats, "grits/zzpub")
-	}
-	pkgs, err := packages.Load(cfg, pats...)
-	if err != nil {
-		return nil, err
-	}
-	var errs []string
-	packages.Visit(pkgs, nil, func(p *packages.Package) {
-		for _, e := range p.Errors {
-			errs = append(errs, e.Error())
+	var pkgs []*packages.Package
+	var broken []string
+	for attempt := 0; attempt < 3; attempt++ {
+		overlay := map[string][]byte{}
+		for v, r := range ov {
+			if strings.HasSuffix(r, "_test.go") {
+				continue
+			}
+			b, err := os.ReadFile(r)
+			if err != nil {
+				return nil, err
+			}
+			overlay[v] = b
 		}
-	})
-	if len(errs) > 0 {
-		return nil, fmt.Errorf("load errors:\n%s", strings.Join(errs, "\n"))
+		cfg := &packages.Config{
+			Mode:    packages.LoadAllSyntax,
+			Dir:     repo,
+			Overlay: overlay,
+			Env:     append(os.Environ(), "GOFLAGS=-mod=mod", "GOPROXY=off", "GOSUMDB=off", "GOTOOLCHAIN=local"),
+		}
+		pats := append([]string{}, want...)
+		pats = append(pats, "grits/zzvn")
+		if _, err := os.Stat(filepath.Join(harness, "zzpub")); err == nil {
+			pats = append(pats, "grits/zzpub")
+		}
+		pkgs, err = packages.Load(cfg, pats...)
+		if err != nil {
+			return nil, err
+		}
+		var errs []string
+		badDirs := map[string]bool{}
+		packages.Visit(pkgs, nil, func(p *packages.Package) {
+			for _, e := range p.Errors {
+				errs = append(errs, e.Error())
+				// an error located in a harness file: the harness of that package no longer
+				// compiles against the tree (an internal signature changed)
+				if i := strings.Index(e.Pos, "zz_verif_"); i > 0 {
+					badDirs[filepath.Dir(e.Pos[:i+1])] = true
+				}
+			}
+		})
+		if len(errs) == 0 {
+			break
+		}
+		if len(badDirs) == 0 || attempt == 2 {
+			return nil, fmt.Errorf("load errors:\n%s", strings.Join(errs, "\n"))
+		}
+		// drop the harness files of the affected package directories and try again
+		for v := range ov {
+			if badDirs[filepath.Dir(v)] {
+				delete(ov, v)
+			}
+		}
+		for d := range badDirs {
+			rel, _ := filepath.Rel(repo, d)
+			broken = append(broken, rel+": "+firstLineWith(strings.Join(errs, "\n"), "zz_verif_"))
+		}
 	}
 	prog, spkgs := ssautil.AllPackages(pkgs, ssa.InstantiateGenerics|ssa.SanityCheckFunctions&0)
 	prog.Build()
-	P := &Program{Prog: prog, Pkgs: map[string]*ssa.Package{}, RepoDir: repo, HarnessDir: harness, Overlay: ov}
+	P := &Program{Prog: prog, Pkgs: map[string]*ssa.Package{}, RepoDir: repo, HarnessDir: harness, Overlay: ov, BrokenHarness: broken}
 	for _, sp := range spkgs {
 		if sp != nil {
 			P.Pkgs[sp.Pkg.Path()] = sp
